@@ -21,10 +21,10 @@ def main():
         print(json.dumps(_jsonable(res)))
         return 0
     data = req["data"]
-    if data.get("prior") != "inplace":
+    if data.get("prior") not in ("inplace", "inplace-costs"):
         SR.run_priors(data["desc"], data["algo"])
     fails = SR.concrete_failures(data["desc"], data["algo"], data["policy"], H.cost_unjson(data["costs"]), set(data["flags"]),
-                                 inplace=data.get("prior") == "inplace", history=True)
+                                 inplace={"inplace": "data", "inplace-costs": "costs"}.get(data.get("prior"), False), history=True)
     print(json.dumps([[k, t] for k, t in fails]))
     return 0
 
